@@ -15,6 +15,8 @@ pub fn lib_decls() -> Vec<(u64, usize, usize)> {
         (2004, f(" C }", 1), 1),
         (2005, f("const k", 6), 1),
         (2006, f("type T {", 5), 1),
+        (2007, f("type A {", 5), 1),
+        (2008, f("A(a: Int)", 2), 1),
     ]
 }
 
